@@ -217,9 +217,25 @@ Print Assumptions C03_object_wrappers_keep_labels.
 Theorem C03_object_wrappers_need_negative_context :
   In {| oi_label := Neg; oi_via := WPatternProperty 0; oi_sub := Some Pos |} (wrap_all_callers_ctx (true, true) WPatternProperty [sub_string])
   /\ sub_respects_modes sub_string = true
-  /\ length (object_negatives (true, true) [OKProperties [sub_string]; OKPatternProperties [sub_string]; OKRequired 1; OKAdditionalFalse]) = 8%nat.
+  /\ length (object_negatives (true, true) [OKProperties [sub_string]; OKPatternProperties [sub_string]; OKRequired 1; OKAdditional AddlFalse]) = 8%nat.
 Proof. exact callers_ctx_flips_labels. Qed.
 Print Assumptions C03_object_wrappers_need_negative_context.
+
+(* the "Object with unexpected properties" value is built exactly when additionalProperties is falsy
+   in Python; unless it is the empty schema, that means additional properties are forbidden ... *)
+Theorem C03_additional_negative_partial : forall c a it,
+  a <> AddlEmptySchema -> In it (object_negatives c [OKAdditional a]) -> addl_forbids a = true.
+Proof. exact additional_negative_partial. Qed.
+Print Assumptions C03_additional_negative_partial.
+
+(* F9: ... additionalProperties: {} allows everything and still gets the negative value *)
+Theorem C03_additional_negative_refuted : exists c a it,
+  In it (object_negatives c [OKAdditional a]) /\ oi_label it = Neg /\ addl_forbids a = false.
+Proof.
+  exists (true, true), AddlEmptySchema, {| oi_label := Neg; oi_via := WAdditional; oi_sub := None |}.
+  repeat split. left. reflexivity.
+Qed.
+Print Assumptions C03_additional_negative_refuted.
 
 (* ---- _positive_object: the objects built by dropping optional properties keep at least
    minProperties properties when the required ones alone suffice ... ---- *)
